@@ -270,6 +270,9 @@ def families(tier='quick', seed=0):
     add('modifier', 'str(f)=1', {'idents': {'A': M((K('f', 'str'), ('i', 1)))}, 'cond': ('id', 'A')})
     add('modifier', 'str(f)=true', {'idents': {'A': M((K('f', 'str'), ('b', True)))}, 'cond': ('id', 'A')})
     add('modifier', 'str(f) list', {'idents': {'A': M((K('f', 'str'), L(S('a'), S('b*'), ('i', 1))))}, 'cond': ('id', 'A')})
+    add('modifier', 'str(f) numbers only', {'idents': {'A': M((K('f', 'str'), L(('i', 1), ('i', 2))))}, 'cond': ('id', 'A')})
+    add('modifier', 'str(f) bool only', {'idents': {'A': M((K('f', 'str'), L(('b', True))))}, 'cond': ('id', 'A')})
+    add('modifier', 'str(f) number then string', {'idents': {'A': M((K('f', 'str'), L(('i', 1), S('a*'))))}, 'cond': ('id', 'A')})
     add('modifier', 'int(f) list', {'idents': {'A': M((K('f', 'int'), L(('i', 1), S('>5'))))}, 'cond': ('id', 'A')})
     # conditions with casts
     Z = M((K('f'), S('*')))
